@@ -173,12 +173,14 @@ CHECKS = {
                 "custom iterators through for-of / spread / destructuring, generators incl. yield*, default parameters, "
                 "computed keys, Symbol.hasInstance, async functions) x {control, a 200000-iteration loop in the callee, "
                 "unbounded recursion through the path, recursion to depth 20000 (thorough: 100000)}; 17 non-terminating "
-                "programs; 66 length/count-taking built-ins x 15 size arguments up to 2^53, NaN, negative, fractional and "
-                "infinite; 34 two-argument built-ins (slice / splice / substr / substring / copyWithin / fill / lastIndexOf / "
-                "Date.UTC / Date constructor / setters ...) x 15 x 15 value pairs; 19 recursive built-ins on data nested "
-                "100..100000 (thorough: 10^6) deep. Every program runs in a forked child under a host that counts steps and "
-                "reads call_depth() before every step. A case is non-trivial when the child answered or died (not cut by the "
-                "wall-clock watchdog); cases are distinct by construction",
+                "programs and 128 tight loops (16 spellings of a loop that does nothing x 8 kinds of frame; besides the "
+                "instruction counter a step that does not return, dispatches no instruction and consumes 20 s of the child's "
+                "own CPU time counts as spinning in native code); 66 length/count-taking built-ins x 15 size arguments up to "
+                "2^53, NaN, negative, fractional and infinite; 34 two-argument built-ins (slice / splice / substr / substring /"
+                " copyWithin / fill / lastIndexOf / Date.UTC / Date constructor / setters ...) x 15 x 15 value pairs; 19 "
+                "recursive built-ins on data nested 100..100000 (thorough: 10^6) deep. Every program runs in a forked child "
+                "under a host that counts steps and reads call_depth() before every step. A case is non-trivial when the child "
+                "answered or died (not cut by the wall-clock watchdog); cases are distinct by construction",
         "exhaustive": "every call path x 4 variants; every size-taking built-in x 15 sizes",
         "floor": {"quick": 1000, "thorough": 1000},
         "unit_timeout": {"default": 1500},
@@ -330,8 +332,9 @@ CHECKS = {
                 "after other interpreters lived and died on the same thread (3 rounds of 16 hostile predecessors that leave "
                 "built-ins through failure and early-exit paths - cyclic JSON caught / uncaught / host-side, throwing getters, "
                 "toJSON, replacers, revivers, comparators, callbacks, proxy traps, coercion hooks, deep recursion, abandoned "
-                "generators and promises - some kept alive, most dropped). Every comparison counts as non-trivial; (program, "
-                "variant) pairs are distinct by construction",
+                "generators and promises - some kept alive, most dropped; once on the worker's thread and once on a fresh "
+                "thread where the predecessors run first). Every comparison counts as non-trivial; (program, variant) pairs are"
+                " distinct by construction",
         "floor": {"quick": 3000, "thorough": 20000},
         "technique": "runtime monitoring: trace-equality oracle across repetitions, process restarts, step interleavings and threads",
         "level_text": "Identical source + identical injected providers must give identical step-by-step traces regardless of process, "
@@ -374,11 +377,13 @@ CHECKS = {
     "C14": {
         "engines": NATIVE,
         "level": "exploration",
-        "rule": "self-contained programs (one construct per program: statement snippets, holder programs for every container kind, "
-                "failing programs that end in an uncaught error at 21 nesting kinds inside a function and at the script top level, "
-                "top-level control flow leaving block scopes, a slice of the atom matrix, and the composed corpus) are each run 8 times "
-                "on ONE interpreter; after every run the host calls collect() and reads gc_stats().live_objects. A program is "
-                "non-trivial when all 8 runs terminated within the step budget; programs are distinct by construction",
+        "rule": "self-contained programs (one construct per program: statement snippets, holder programs for every container "
+                "kind, failing programs that end in an uncaught error at 21 nesting kinds inside a function and at the script "
+                "top level, top-level control flow leaving block scopes, a slice of the atom matrix, and the composed corpus) "
+                "are each run 8 times on ONE interpreter; after every run the host calls collect() and reads "
+                "gc_stats().live_objects. Promise-adoption shapes (a promise resolved with a pending promise through the "
+                "executor, a then-callback or an async function) are among the repeated programs. A program is non-trivial when"
+                " all 8 runs terminated within the step budget; programs are distinct by construction",
         "floor": {"quick": 2000, "thorough": 10000},
         "unit_timeout": {"default": 900},
         "technique": "runtime monitoring: conservation oracle on the live-object count after collect() over repeated runs on one "
